@@ -51,28 +51,18 @@ func runScenario(t testing.TB, sp Scenario, seed int64, slow bool, dir string) (
 		return nil, err
 	}
 	defer r.close()
-	nodes := []map[string]any{}
-	for _, ns := range sp.Nodes {
-		n, err := newNode(r.w, nodeOpts{id: ns.ID, h0: ns.H0, minPeers: ns.MinPeers, bcast: 100, onOwn: r.learnOwn}, r.log, r.clk, dir)
-		if err != nil {
-			return nil, err
-		}
-		r.nodes[ns.ID] = n
-		nodes = append(nodes, map[string]any{"n": ns.ID, "id": ns.ID, "minp": ns.MinPeers, "h0": ns.H0})
+	// single: one server; mesh: every server dials the ones created before it
+	nodes, err := r.meshNodes(dir)
+	if err != nil {
+		return nil, err
 	}
-	if sp.Kind == "mesh" {
-		if err := r.mesh(); err != nil {
-			return nil, err
+	for _, s := range sp.Steps {
+		if err := r.step(s); err != nil {
+			return nil, fmt.Errorf("step %s: %w", s.Op, err)
 		}
-	} else {
-		for _, s := range sp.Steps {
-			if err := r.step(s); err != nil {
-				return nil, fmt.Errorf("step %s: %w", s.Op, err)
-			}
-		}
-		if err := r.sync(); err != nil {
-			return nil, err
-		}
+	}
+	if err := r.sync(); err != nil {
+		return nil, err
 	}
 	r.emit(map[string]any{"event": "end"})
 	out := []map[string]any{{"event": "init", "sc": sp.Name, "kind": sp.Kind, "nodes": nodes, "nv": r.w.n, "slow": slow, "srih": sp.SRIH}}
